@@ -150,6 +150,11 @@ func (o *Object) Write(rootGoitPath string) error {
 			return fmt.Errorf("%w: %s", ErrIOHandling, dirPath)
 		}
 	}
+	// an object is named after its content: if it is already stored there is nothing to write
+	// (and truncating it would damage it if the process died before the write)
+	if info, err := os.Stat(filePath); err == nil && info.Mode().IsRegular() && info.Size() > 0 {
+		return nil
+	}
 	f, err := os.Create(filePath)
 	if err != nil {
 		return fmt.Errorf("%w: %s", ErrIOHandling, filePath)
